@@ -780,6 +780,25 @@ def eval_fsd(case, res):
     ok, s = call(res, "duration-write", ctx, str, x)
     if not ok:
         return "exc"
+    if not bounded:
+        # addition is exact and leaves its operands alone: adding to x (twice) must not change x's value or
+        # text, and both sums must be equal (a sum that shares state with an operand shows up here)
+        for oc in ([1, 8, None], [1, 16, 3], 1):
+            other = 1 if oc == 1 else F(oc[0], oc[1], oc[2])
+            val2, nz2, bounded2 = dur_ref(list(comps) + [[1, 1, None] if oc == 1 else oc])
+            ok1, z1 = call(res, "duration-addition-exact", ctx, lambda: x + other)
+            ok2, z2 = call(res, "duration-addition-exact", ctx, lambda: x + other)
+            if not (ok1 and ok2):
+                break
+            if str(z1) != str(z2) or (not bounded2 and (dur_value(z1) != val2 or dur_value(z2) != val2)):
+                res.fail("duration-addition-exact", expected="%s twice" % (val2,), observed=[show(z1), show(z2)],
+                         where="FractionalSymbolicDuration.__add__", detail="%s + %s" % (ctx, oc))
+                break
+            ok3, s3 = call(res, "duration-write", ctx, str, x)
+            if ok3 and (s3 != s or dur_value(x) != val):
+                res.fail("duration-addition-operand-unchanged", expected=s, observed=s3, where="FractionalSymbolicDuration.__add__",
+                         detail="%s after adding %s to it" % (ctx, oc))
+                break
     ctx = "%s text=%r" % (ctx, s)
     ok, y = call(res, "duration-parse", ctx, F.from_string, s)
     if not ok:
